@@ -1,0 +1,67 @@
+//go:build verif
+
+// Contracts for package stacktrace, read by /verif/govc. Comment-only.
+//
+// Meaning of Capture(skip, depth): the first reported frame lies `skip` frames above the
+// caller of Capture, i.e. skip+1 frames above Capture itself. runtime.Callers(s, ...) reports
+// from s-1 frames above its caller (Capture), so the refinement obligation is s == skip + 2
+// at every runtime.Callers call (clause CL.arg0 below).
+
+package stacktrace
+
+//@ func internal/stacktrace.Capture
+//@   props C15 C08
+//@   flags nopanic
+//@   requires _stackPool != nil
+//@   requires 0 <= skip && skip <= 1 << 30
+//@   track CL = call runtime.Callers
+//@   modifies comp(E:uintptr)
+//@   ensures fresh(result)
+//@   ensures #CL >= 1
+//@   ensures forall k int :: 0 <= k && k < #CL ==> CL.arg0[k] == skip + 2
+//@   ensures len(result.pcs) == CL.ret0[#CL - 1]
+//@   ensures depth == First ==> #CL == 1 && len(result.pcs) <= 1
+//@   ensures depth == Full ==> CL.ret0[#CL - 1] < len(CL.arg1[#CL - 1]) || len(CL.arg1[#CL - 1]) == 0
+//@   ensures result.frames != nil
+//@   loop 1 invariant #CL >= 1 && numFrames == CL.ret0[#CL - 1] && pcs == CL.arg1[#CL - 1] && 0 <= numFrames && numFrames <= len(pcs) && numFrames <= 1 << 40
+//@   loop 1 invariant forall k int :: 0 <= k && k < #CL ==> CL.arg0[k] == skip + 2
+
+//@ func (*internal/stacktrace.Stack).Free
+//@   props C08
+//@   flags nopanic
+//@   requires st != nil && _stackPool != nil
+//@   modifies st.frames, st.pcs
+//@   ensures st.frames == nil && len(st.pcs) == 0 && arr(st.pcs) == nil
+
+//@ func (*internal/stacktrace.Stack).Count
+//@   props C15
+//@   flags nopanic
+//@   requires st != nil
+//@   modifies nothing
+//@   ensures result == len(st.pcs)
+
+//@ func (*internal/stacktrace.Stack).Next
+//@   props C15
+//@   flags nopanic
+//@   requires st != nil && st.frames != nil
+//@   modifies $user
+
+//@ func internal/stacktrace.NewFormatter
+//@   props C15
+//@   flags nopanic pure
+//@   ensures result.b == b && !result.nonEmpty
+
+//@ func (*internal/stacktrace.Formatter).FormatFrame
+//@   props C15
+//@   flags nopanic
+//@   requires sf != nil && sf.b != nil
+//@   modifies sf.nonEmpty, sf.b.bs, comp(E:uint8)
+//@   ensures sf.nonEmpty && sf.b == old(sf.b)
+
+//@ func (*internal/stacktrace.Formatter).FormatStack
+//@   props C15
+//@   flags nopanic
+//@   requires sf != nil && sf.b != nil && stack != nil && stack.frames != nil
+//@   modifies Formatter.nonEmpty, buffer.Buffer.bs, comp(E:uint8), $user
+//@   ensures sf.b == old(sf.b)
+//@   loop 1 invariant sf.b == old(sf.b) && sf.b != nil && stack.frames == old(stack.frames)
